@@ -94,7 +94,7 @@ pub fn decode_c08(bytes: &[u8]) -> Option<C08Case> {
     let lines: Vec<&str> = text.lines().collect();
     let (payload, disclosures) = decode_structure(&lines);
     let alg = if bytes[0] & 2 == 0 { Alg::HS256 } else { Alg::ES256 };
-    Some(C08Case { payload: Value::Object(payload), disclosures, fmt: fmt_of(bytes[0]), alg, deviations: vec!["fuzz".into()] })
+    Some(C08Case { payload: Value::Object(payload), disclosures, fmt: fmt_of(bytes[0]), alg, deviations: vec!["fuzz".into()], kb: None })
 }
 
 const POOL_CLAIMS: &[&str] = &[
@@ -133,7 +133,7 @@ pub fn decode_c03(bytes: &[u8]) -> Option<C03Case> {
             _ => Entry::Garbage((i % 13) as u8),
         });
     }
-    Some(C03Case { issue, entries })
+    Some(C03Case { issue, entries, kb: if bytes[0] & 64 != 0 { Some("eyJhbGciOiJFUzI1NiIsInR5cCI6ImtiK2p3dCJ9.e30.AAAA".to_string()) } else { None } })
 }
 
 pub fn decode_c07(bytes: &[u8]) -> Option<C07Case> {
